@@ -558,6 +558,14 @@ fn value_strategy() -> BoxedStrategy<String> {
         Just("{ a = 1 }".to_string()),
         Just("1979-05-27T07:32:00Z".to_string()),
         Just("\"\"".to_string()),
+        // values of the right type and the right vocabulary, well-formed or nearly so: the rule
+        // evaluation and the host loading get to work on them
+        "[0-9a-fA-F]{0,12}".prop_map(|h| format!("\"{}\"", h)),
+        ("[0-9a-f]{0,10}", "[0-9a-f]{0,10}").prop_map(|(p, m)| format!("\"{}/{}\"", p, m)),
+        ("[0-9a-f]{2,8}", "[0-9a-f]{2,8}", "[0-9a-f]{0,4}").prop_map(|(p, m, x)| format!("\"{}/{}/{}\"", p, m, x)),
+        (any::<[u8; 4]>(), 0u8..40).prop_map(|(a, l)| format!("\"{}.{}.{}.{}/{}\"", a[0], a[1], a[2], a[3], l)),
+        (any::<[u16; 8]>(), 0u8..140).prop_map(|(a, l)| format!("\"{}/{}\"", std::net::Ipv6Addr::from(a), l)),
+        prop::sample::select(vec!["\"allow\"", "\"deny\"", "\"Allow\"", "\"drop\""]).prop_map(|s| s.to_string()),
     ]
     .boxed()
 }
@@ -568,7 +576,7 @@ impl Suite for FileSuite {
         "configuration-files"
     }
     fn rule(&self) -> String {
-        "TOML documents for the main settings, the credentials file, the rules file and the TLS hosts file, generated from the documented grammar with perturbations: keys missing, values of the wrong type (integers, huge integers, floats, booleans, arrays, inline tables, dates, empty strings), arrays where tables are expected and vice versa, unknown keys, duplicated tables; loaded exactly as the endpoint does (toml::from_str, credentials_file / rules_file indirection) and handed to Core::new; oracle: Ok or Err, never a panic; non-trivial = the document parses as TOML".into()
+        "TOML documents for the main settings, the credentials file, the rules file and the TLS hosts file, generated from the documented grammar with perturbations: keys missing, values of the wrong type (integers, huge integers, floats, booleans, arrays, inline tables, dates, empty strings) or of the right vocabulary (hex strings, prefix/mask pairs of equal and unequal lengths, CIDRs with in- and out-of-range prefix lengths, actions); a rules file that loads is evaluated for five connections; arrays where tables are expected and vice versa, unknown keys, duplicated tables; loaded exactly as the endpoint does (toml::from_str, credentials_file / rules_file indirection) and handed to Core::new; oracle: Ok or Err, never a panic; non-trivial = the document parses as TOML".into()
     }
     fn strategy(&self, _: Tier) -> BoxedStrategy<FileCase> {
         let settings_keys = vec![
@@ -630,7 +638,42 @@ impl Suite for FileSuite {
         prop_oneof![
             3 => settings,
             3 => list_file(1, "client", vec!["username", "password", "extra"]),
-            3 => list_file(2, "rule", vec!["cidr", "client_random_prefix", "action", "extra"]),
+            1 => list_file(2, "rule", vec!["cidr", "client_random_prefix", "action", "extra"]),
+            // rules that mostly load, so that the evaluation gets to see them
+            3 => prop::collection::vec(
+                (
+                    prop_oneof![
+                        3 => Just(None),
+                        2 => (any::<[u8; 4]>(), 0u8..36).prop_map(|(a, l)| Some(format!("\"{}.{}.{}.{}/{}\"", a[0], a[1], a[2], a[3], l))),
+                        1 => (any::<[u16; 8]>(), 0u8..132).prop_map(|(a, l)| Some(format!("\"{}/{}\"", std::net::Ipv6Addr::from(a), l))),
+                        1 => Just(Some("\"0.0.0.0/0\"".to_string())),
+                        1 => Just(Some("\"::/0\"".to_string())),
+                    ],
+                    prop_oneof![
+                        2 => Just(None),
+                        3 => "[0-9a-fA-F]{0,70}".prop_map(|h| Some(format!("\"{}\"", h))),
+                        4 => ("[0-9a-f]{0,12}", "[0-9a-f]{0,12}").prop_map(|(p, m)| Some(format!("\"{}/{}\"", p, m))),
+                        1 => ("[0-9a-f]{2,66}", "[0-9a-f]{2,66}").prop_map(|(p, m)| Some(format!("\"{}/{}\"", p, m))),
+                        1 => value_strategy().prop_map(Some),
+                    ],
+                    prop_oneof![8 => Just("\"allow\"".to_string()), 8 => Just("\"deny\"".to_string()), 1 => value_strategy()],
+                ),
+                0..5,
+            )
+            .prop_map(|rules| {
+                let mut d = String::new();
+                for (cidr, random, action) in rules {
+                    d.push_str("[[rule]]\n");
+                    if let Some(c) = cidr {
+                        d.push_str(&format!("cidr = {}\n", c));
+                    }
+                    if let Some(r) = random {
+                        d.push_str(&format!("client_random_prefix = {}\n", r));
+                    }
+                    d.push_str(&format!("action = {}\n", action));
+                }
+                FileCase { which: 2, doc: d }
+            }),
             2 => list_file(3, "main_hosts", vec!["hostname", "cert_chain_path", "private_key_path", "allowed_sni"]),
         ]
         .boxed()
@@ -674,6 +717,9 @@ impl Suite for FileSuite {
                             if let Some(e) = s.get_rules_engine().as_ref() {
                                 let _ = e.evaluate(&"10.0.0.1".parse().unwrap(), Some(&[0xaa; 32]));
                                 let _ = e.evaluate(&"::1".parse().unwrap(), None);
+                                let _ = e.evaluate(&"::ffff:10.0.0.1".parse().unwrap(), Some(&[0u8; 32]));
+                                let _ = e.evaluate(&"203.0.113.9".parse().unwrap(), Some(&[0xff; 32]));
+                                let _ = e.evaluate(&"2001:db8::1".parse().unwrap(), Some(&[]));
                             }
                         }
                         s
